@@ -90,6 +90,8 @@ def main():
              "kind_free_text": "deterministic simulator, back end A: real goroutines, one token, every decision from a seeded choice stream; replay + choice-list minimisation in fresh processes (cmd/vcheck)"},
             {"name": "map-order-seam", "path": "/verif/sim/simrt", "serves_properties": ["C09", "C12", "C19", "C20"],
              "kind_free_text": "build-time rewrite of every range-over-map site (cmd/instrument) + run-time permutation from the choice stream"},
+            {"name": "bubble-kernel", "path": "/verif/sim/kern/bkern.go", "serves_properties": ["C02", "C04", "C05", "C07", "C08", "C14", "C16", "C17", "C18", "C19"],
+             "notes": "back end B: go1.26.8 testing/synctest bubble on one P; runtime overlay (overlayfiles/runtime) seeds select order, timer ties, run-queue order, wake-up preemption and Gosched placement; S3 runs the real d2 client against a simulated ZooKeeper on it, and the token-kernel scenarios have twin batches on it (build tag bkern)"},
             {"name": "genfs-processes", "path": "/verif/cmd/gensim", "serves_properties": ["C12", "C20"],
              "kind_free_text": "the code generator as simulated OS processes over sim/simos (fault-injecting, monitored os shim) and sim/simrt"},
         ],
